@@ -23,6 +23,7 @@ RULE = (
     "Non-trivial = transition/history with an eviction, an oversize or exactly fitting put, or a forget of a resident; "
     "distinct by (state, op) in A and by op-kind sequence in B."
     " Round 5: the budget every invariant is checked against is the configured one (the explicit argument), not the one the cache object reports; stores may be built from a reused configuration dict naming a larger cache."
+    " Round 6: same additions as C05 (domain B); the over-eviction oracle only fires when every victim would fit back (and allows a replacing put to make room as if the old value were still there)."
 )
 ASSUMPTIONS = [
     "observes MemoryCache.memory_usage, .cache and .lru_deque (the attributes the repo's own tests inspect)",
